@@ -170,6 +170,13 @@ def random_world(rng, gate_finding):
             st[created] = {"nodes": [], "eid": 0, "prep": False, "mode": 0, "wgt": 1, "edges": [],
                            "metric": rng.random() < 0.6, "calls": 0}
             created += 1
+            if rng.random() < 0.4:        # configured right after its creation
+                S = st[created - 1]
+                S["mode"] = 1
+                ops.append([created - 1, ["m", 1]])
+                if rng.random() < 0.6:
+                    S["wgt"] = rng.choice(WORLD_WGT)
+                    ops.append([created - 1, ["w", S["wgt"]]])
             continue
         k = rng.randrange(created)
         S, net = st[k], nets[k]
